@@ -26,6 +26,8 @@ import (
 	"github.com/hyperledger/aries-framework-go/component/models/sdjwt/holder"
 	"github.com/hyperledger/aries-framework-go/component/models/sdjwt/issuer"
 	"github.com/hyperledger/aries-framework-go/component/models/sdjwt/verifier"
+	sigverifier "github.com/hyperledger/aries-framework-go/component/models/signature/verifier"
+	"github.com/hyperledger/aries-framework-go/component/models/verifiable"
 )
 
 type c18Case struct {
@@ -152,6 +154,74 @@ func c18Symbolic(v interface{}, ids map[string]int) interface{} {
 	return v
 }
 
+// c18CredentialLevel: credential -> MakeSDJWT -> ParseCredential -> MarshalWithDisclosure(selection) and counts the
+// disclosures in what would be presented: "<presented>/<selected>" (or "na").
+func c18CredentialLevel(c *c18Case, signer jose.Signer) string {
+	sub := map[string]interface{}{"id": "did:example:subject"}
+	for k, v := range c.Claims {
+		if k != "id" && k != "_sd" && k != "..." {
+			sub[k] = v
+		}
+	}
+	raw, err := json.Marshal(map[string]interface{}{
+		"@context": []interface{}{"https://www.w3.org/2018/credentials/v1"}, "id": "http://example.edu/credentials/c18",
+		"type": []interface{}{"VerifiableCredential"}, "issuer": "did:example:issuer", "issuanceDate": "2020-01-01T19:23:24Z",
+		"credentialSubject": sub})
+	if err != nil {
+		return "na"
+	}
+	vc, err := verifiable.ParseCredential(raw, verifiable.WithCredDisableValidation(), verifiable.WithDisabledProofCheck())
+	if err != nil {
+		return "na"
+	}
+	mopts := []verifiable.MakeSDJWTOption{verifiable.MakeSDJWTWithHash(c18Hash(c.Hash))}
+	if c.V == 5 {
+		mopts = append(mopts, verifiable.MakeSDJWTWithVersion(common.SDJWTVersionV5))
+	}
+	sdjwt, err := vc.MakeSDJWT(signer, "did:example:issuer#key-1", mopts...)
+	if err != nil {
+		return "na"
+	}
+	iv, _ := afjwt.NewEd25519Verifier(c18IssuerPub)
+	vc2, err := verifiable.ParseCredential([]byte(sdjwt), verifiable.WithCredDisableValidation(),
+		verifiable.WithPublicKeyFetcher(func(string, string) (*sigverifier.PublicKey, error) {
+			return &sigverifier.PublicKey{Type: "Ed25519VerificationKey2018", Value: c18IssuerPub}, nil
+		}))
+	_ = iv
+	if err != nil {
+		return "na"
+	}
+	// names of the disclosures (unique ones only: a selection by name is ambiguous otherwise)
+	count := map[string]int{}
+	for _, d := range vc2.SDJWTDisclosures {
+		count[d.Name]++
+	}
+	var names []string
+	for n, k := range count {
+		if k == 1 && n != "" {
+			names = append(names, n)
+		}
+	}
+	sort.Strings(names)
+	var sel []string
+	switch c.Mode {
+	case "all":
+		sel = names
+	case "subset":
+		for i, n := range names {
+			if (c.Sel>>uint(i%8))&1 == 1 {
+				sel = append(sel, n)
+			}
+		}
+	}
+	pres, err := vc2.MarshalWithDisclosure(verifiable.DiscloseGivenRequired(sel))
+	if err != nil {
+		return "err"
+	}
+	parts := strings.Split(strings.TrimSuffix(pres, "~"), "~")
+	return fmt.Sprintf("%d/%d", len(parts)-1, len(sel))
+}
+
 var c18LastCombined string // the last combined format handed to the verifier (starting object of the C03 sweep)
 
 func c18Run(input string) string {
@@ -168,6 +238,8 @@ func c18Run(input string) string {
 		return string(b)
 	}
 	signer := afjwt.NewEd25519Signer(c18IssuerPriv)
+	// the credential-level holder API (verifiable.Credential): a selection by claim NAMES, the empty one included
+	res["cl"] = c18CredentialLevel(&c, signer)
 	salt := 0
 	opts := []issuer.NewOpt{
 		issuer.WithStructuredClaims(c.St),
